@@ -183,6 +183,14 @@ def run(res, tier, seed):
             for m in ("shadow", "prio", "rank"):
                 one_case(res, arr, m, ax, cases)
         res.count("many_levels")
+    # the 64-bit boundary itself: 61, 62, 63 and 64 priority levels of one column each (63 is the last count whose weights fit)
+    for L in (61, 62, 63, 64):
+        lv = list(range(1, L + 1)); rng.shuffle(lv)
+        M = [[rng.choice([1, -1]) * v for v in lv], [0] * L]
+        for ax, arr in ((0, M), (1, np.array(M, dtype=object).T.tolist())):
+            for m in ("shadow", "prio", "rank"):
+                one_case(res, arr, m, ax, cases)
+        res.count("levels_at_the_64_bit_boundary")
     if not quick:
         # exhaustive: every 2x3 and 3x2 matrix over {-2,-1,0,1,2} with 'shadow' (and 'prio') along axis 0
         vals = [-2, -1, 0, 1, 2]
